@@ -85,6 +85,9 @@ def rerun(a):
         if not os.path.exists(os.path.join(d, 'meta.json')):
             continue
         meta = json.load(open(os.path.join(d, 'meta.json')))
+        if meta.get('superseded_by'):
+            print(f'skipped {name:<27} superseded by ' + meta['superseded_by'][:60])
+            continue
         def body(wt, tmp):
             ap = sh(['git', '-C', wt, 'apply', '--whitespace=nowarn', os.path.join(d, 'patch.diff')])
             if ap.returncode != 0:
